@@ -65,7 +65,11 @@ pub proof fn axiom_generator_covers(g: &ConcurrentNodeIds, v: DbView, i: u16)
 { }
 pub struct FrozzenReader<'a> { pub leafs: &'a ImmutableLeafs, pub trees: &'a ImmutableTrees, pub concurrent_node_ids: &'a ConcurrentNodeIds }
 
-pub trait Rng { }
+pub trait Rng: Sized {
+    /// rand::SeedableRng::seed_from_u64 / RngCore::next_u64: no specification (any generator, any value)
+    fn seed_from_u64(seed: u64) -> Self;
+    fn next_u64(&mut self) -> u64;
+}
 #[derive(Copy, Clone)]
 pub enum Side { Left, Right }
 impl Side {
